@@ -461,3 +461,73 @@ func (s *vfSUT) GC(sel uint64, merge bool, pref string) (info string, ran bool, 
 }
 
 func (s *vfSUT) Info(key string) (string, bool) { return store.VFRecordInfo(s.hs, key) }
+
+// Damage corrupts one record that is no key's current record: a superseded value or an
+// outdated tombstone in a flushed data file below the head. One byte of its value (or, for
+// an empty value, of its key) is inverted in place. The record is chosen by sel among all
+// candidates the independent scanner finds.
+func (s *vfSUT) Damage(sel uint64) (string, bool) {
+	s.waitBG("before damage")
+	store.VFFlush(s.hs, true)
+	s.waitBG("before damage (flushed)")
+	type cand struct {
+		path  string
+		chunk int
+		off   uint32
+		rec   *ref.Record
+	}
+	var cands []cand
+	for _, b := range store.VFReadyBuckets(s.hs) {
+		home := store.VFBucketHome(s.hs, b)
+		head, _ := store.VFChunks(s.hs, b)
+		paths, _ := filepath.Glob(filepath.Join(home, "*.data"))
+		for _, p := range paths {
+			id, err := strconv.Atoi(strings.TrimSuffix(filepath.Base(p), ".data"))
+			if err != nil || id >= head {
+				continue
+			}
+			data, err := os.ReadFile(p)
+			if err != nil {
+				continue
+			}
+			recs, _ := ref.ScanFile(data, uint32(s.cfg.BodyMax))
+			for _, sr := range recs {
+				_, _, chunk, offset, found := store.VFTreeEntry(s.hs, string(sr.Rec.Key))
+				if found && chunk == id && offset == sr.Off {
+					continue // the key's current record
+				}
+				if !found && sr.Rec.Ver < 0 {
+					continue // a tombstone whose key has no tree entry may be the only trace of the delete
+				}
+				if !found {
+					continue // without a tree entry the store cannot tell which record of the key is current
+				}
+				cands = append(cands, cand{p, id, sr.Off, sr.Rec})
+			}
+		}
+	}
+	if len(cands) == 0 {
+		return "no superseded record in a flushed file below the head", false
+	}
+	c := cands[int(sel%uint64(len(cands)))]
+	at := int64(c.off) + 24 + int64(len(c.rec.Key))
+	n := len(c.rec.Value)
+	if n == 0 {
+		at, n = int64(c.off)+24, len(c.rec.Key)
+	}
+	at += int64((sel / 7) % uint64(n))
+	f, err := os.OpenFile(c.path, os.O_RDWR, 0)
+	if err != nil {
+		return err.Error(), false
+	}
+	defer f.Close()
+	var one [1]byte
+	if _, err := f.ReadAt(one[:], at); err != nil {
+		return err.Error(), false
+	}
+	one[0] ^= 0xff
+	if _, err := f.WriteAt(one[:], at); err != nil {
+		return err.Error(), false
+	}
+	return fmt.Sprintf("%s offset %d (key %q version %d, %d value bytes): byte %d inverted", filepath.Base(c.path), c.off, c.rec.Key, c.rec.Ver, len(c.rec.Value), at), true
+}
